@@ -463,6 +463,17 @@ func (p *referrersProp) run(rc *RunCtx, rp *ReferrersParams, info *RunInfo) *Ver
 			modelSet[d.Digest] = d
 		}
 		foreign := map[digest.Digest]bool{}
+		// whatever is listed exists. With the failures injected here (exchanges on the index,
+		// never on a referrer manifest itself) a Delete removes the manifest only after the
+		// index stopped naming it, and a Push adds it before the index names it.
+		for d := range count {
+			if d == "" {
+				continue
+			}
+			if _, ok := reg.HasManifest(simRepo, d); !ok {
+				return violation("referrers-lists-missing-manifest", "", "Referrers(subject %d) lists %s, which the registry does not hold\n%s", s, d.Encoded()[:12], describe())
+			}
+		}
 		for i, rs := range rp.Refs {
 			if rs.Subject != s {
 				continue
